@@ -7,6 +7,7 @@
 // LICENSE file in the root of the Project.
 
 #include "BaseTagHDF5.hpp"
+#include <algorithm>
 #include <nix/NDArray.hpp>
 #include <nix/util/util.hpp>
 #include "DataArrayHDF5.hpp"
@@ -105,12 +106,23 @@ bool BaseTagHDF5::removeReference(const std::string &name_or_id) {
 
 
 void BaseTagHDF5::references(const std::vector<DataArray> &refs_new) {
+    // resolve the new list first: a rejected call must not have removed anything
+    std::vector<std::string> ids;
+    for (const auto &ref : refs_new) {
+        std::string id = ref.id();
+        if (!block()->hasEntity({id, ObjectType::DataArray}))
+            throw std::runtime_error("BaseTagHDF5::references: DataArray not found in block!");
+        if (std::find(ids.begin(), ids.end(), id) != ids.end())
+            throw std::runtime_error("BaseTagHDF5::references: DataArray given twice!");
+        ids.push_back(id);
+    }
+
     while (referenceCount() > 0) {
         removeReference(getReference(0)->id());
     }
 
-    for (const auto &ref : refs_new) {
-        addReference(ref.id());
+    for (const auto &id : ids) {
+        addReference(id);
     }
 }
 
